@@ -182,7 +182,8 @@ def exX : Ctx :=
 
 theorem exX_ok : exX.Ok := ⟨rfl, ⟨rfl, rfl, rfl, rfl⟩, fun _ => rfl⟩
 
-/-- A child window at (1,0) of a 3×1 screen; print "a世" (the wide glyph does not fit), put the
+/-- A child window at (1,0) of a 3×1 screen; print "a世" (the wide glyph does not fit in the rest of the window's row and there is no next row:
+    since the F111 repair it is not written), put the
     cursor in the window, render; the terminal shrinks to 2×1 showing junk; print again; render. -/
 def exWin : Win := (Win.root 0 0 3 1).new 1 0 (-1) (-1)
 def exText : List (Nat × List Raw) := [(1, [⟨5, 1, false⟩, ⟨6, 2, false⟩])]
@@ -191,9 +192,9 @@ def exRun : List SysOp :=
   [.draw (.print exWin exText), .draw (.showCursor exWin 0 0 2), .render,
    .resize 2 1 exJunk, .draw (.hideCursor), .draw (.print (Win.root 0 0 2 1) exText), .render]
 
-example : (sysRun exX (Sys.init 3 1) exRun).t.grid = [[.glyph "61" 1 { fg := .idx 1 } "" "", .glyph "20" 1 { fg := .idx 1 } "" ""]] ∧
+example : (sysRun exX (Sys.init 3 1) exRun).t.grid = [[.glyph "61" 1 { fg := .idx 1 } "" "", DCell.blank]] ∧
     (sysRun exX (Sys.init 3 1) (exRun.take 3)).t.grid =
-      [[DCell.blank, .glyph "61" 1 { fg := .idx 1 } "" "", .glyph "20" 1 { fg := .idx 1 } "" ""]] ∧
+      [[DCell.blank, .glyph "61" 1 { fg := .idx 1 } "" "", DCell.blank]] ∧
     (sysRun exX (Sys.init 3 1) (exRun.take 3)).t.bad = none := by decide
 
 /-- … and the run is admissible: every hypothesis of `app_from_start` holds of it. -/
